@@ -1,13 +1,18 @@
 #!/bin/bash
 # usage: regress_seeds.sh [id...]   — re-runs every recorded seeded change against the check of the property it breaks
-# (or, where that check cannot reach it, the first check recorded as catching it). Works on $VP_RUN_REPO if set
-# (a `vp run --with-repo` snapshot), else on /repo. Prints one line per seed: CAUGHT / MISSED / SKIP.
+# (or, where that check cannot reach it, the first check recorded as catching it). Never touches /repo: each patch is
+# applied to a scratch worktree of /repo's HEAD and the check builds against it (VERIF_REPO); results, evidence and
+# replays stay in this directory's .build (VERIF_DIR = a scratch copy). Prints one line per seed: CAUGHT / MISSED / SKIP.
 cd "$(dirname "$0")/.." || exit 2
-REPO=${VP_RUN_REPO:-/repo}
+SRC=$PWD
 ids="$@"; [ -z "$ids" ] && ids=$(ls seeded)
-git -C $REPO diff --quiet || { echo "$REPO has uncommitted changes"; exit 2; }
-mkdir -p .build; rm -rf .build/evidence.keep; cp -r evidence .build/evidence.keep
-trap "git -C $REPO checkout -- . ; rm -rf evidence && mv .build/evidence.keep evidence" EXIT
+export GOFLAGS=-mod=mod GOPROXY=off GOTOOLCHAIN=auto; unset GOSUMDB
+wt=/tmp/rwt-$$; vd=/tmp/rvd-$$
+mkdir -p $vd && rsync -a --exclude .git --exclude .build --exclude replays --exclude seeded --exclude evidence --exclude bin $SRC/ $vd/
+mkdir -p $vd/evidence $vd/replays $vd/bin
+(cd $vd/harness && go build -o ../bin/vcheck ./cmd/vcheck) || exit 2
+git -C /repo worktree add -q --detach $wt HEAD || exit 2
+trap "git -C /repo worktree remove --force $wt; rm -rf $vd" EXIT
 for id in $ids; do
   d=seeded/$id
   [ -f $d/patch.diff ] || continue
@@ -21,9 +26,9 @@ print(b if (b in c or not c) else c[0])
 PY
 )
   if [ "$prop" = SKIP ]; then echo "SKIP $id (superseded)"; continue; fi
-  if ! git -C $REPO apply $PWD/$d/patch.diff 2>/dev/null; then echo "NOAPPLY $id"; continue; fi
-  out=$(./check $prop --tier quick 2>&1); rc=$?
-  git -C $REPO checkout -- .
+  if ! git -C $wt apply $SRC/$d/patch.diff 2>/dev/null; then echo "NOAPPLY $id"; continue; fi
+  out=$(cd $vd && VERIF_DIR=$vd VERIF_REPO=$wt bin/vcheck $prop --tier quick 2>&1); rc=$?
+  git -C $wt checkout -q -- . ; git -C $wt clean -fdq
   if [ $rc -eq 1 ] && echo "$out" | grep -q "^VIOLATION property=$prop"; then
     echo "CAUGHT $id by $prop: $(echo "$out" | grep -m1 signature | cut -c1-120)"
   else
